@@ -75,6 +75,7 @@ type world struct {
 	inbox     []J                   // messages from the Conn the reflecting peer has not handled yet
 	nextPeerQ int                   // next question id the reflecting peer uses
 	reflected map[int]int           // peer question id (reflected call) -> the Conn's question id it came from
+	paramExp  map[int]int           // call tag -> export id the Conn assigned to the capability in the call's parameters
 	reflect   bool                  // the script is an embargo scenario: the peer keeps an inbox and reflects
 	onCancel  map[int]string        // what a cancelled method body does (default: gives up with an error)
 	recvTag   map[int]bool          // tags of calls the peer sent (a call of the Conn carrying one of them is a forwarded call)
@@ -253,6 +254,11 @@ func (w *world) recordSend(m rpccp.Message) {
 		e["tag"] = payloadTag(p)
 		e["caps"] = descs(p)
 		w.mu.Lock()
+		for _, d := range e["caps"].([]interface{}) {
+			if dd := d.([]interface{}); dd[0] == "senderHosted" {
+				w.paramExp[e["tag"].(int)] = dd[1].(int)
+			}
+		}
 		w.questions = append(w.questions, int(c.QuestionId()))
 		w.qkind[int(c.QuestionId())] = "call"
 		w.mu.Unlock()
@@ -689,7 +695,7 @@ func (w *world) waitStarted(tag int) bool {
 func runScript(id string, script []action) (trace []J, hang string) {
 	w := &world{toConn: make(chan *capnp.Message, 64), returns: map[int]J{}, qkind: map[int]string{},
 		cmds: map[int]chan string{}, started: map[int]chan struct{}{}, handles: map[string]*capnp.Client{}, tagCap: map[int]int{}, sentQ: map[int]bool{}, finQ: map[int]bool{}, lastEvent: time.Now(),
-		answers: map[int]*capnp.Answer{}, nextPeerQ: 20, reflected: map[int]int{}, recvTag: map[int]bool{}, onCancel: map[int]string{}}
+		answers: map[int]*capnp.Answer{}, nextPeerQ: 20, reflected: map[int]int{}, recvTag: map[int]bool{}, onCancel: map[int]string{}, paramExp: map[int]int{}}
 	w.log(J{"ev": "reset", "h": id})
 	for _, a := range script {
 		if a.A == "fault" {
@@ -909,8 +915,8 @@ func (w *world) step(a action, closed *bool) {
 		msg, rm := w.newMsg()
 		r, _ := rm.NewReturn()
 		r.SetAnswerId(uint32(qid))
-		r.SetReleaseParamCaps(false)
-		e := J{"m": "return", "q": qid, "tag": a.Tag}
+		r.SetReleaseParamCaps(a.Rel)
+		e := J{"m": "return", "q": qid, "tag": a.Tag, "rel": a.Rel}
 		switch a.Kind {
 		case "exception":
 			x, _ := r.NewException()
@@ -980,7 +986,23 @@ func (w *world) step(a action, closed *bool) {
 			return
 		}
 		tag := a.Tag
-		w.log(J{"ev": "l-call", "h": a.H, "tag": tag})
+		place := placeTag(tag)
+		var pc *capnp.Client
+		placed := false
+		if a.Kind == "withcap" {
+			// the parameters carry a capability of this vat: the connection has to export it
+			name := fmt.Sprintf("P%d", tag)
+			pc = w.newCap(name)
+			place = func(s capnp.Struct) error {
+				placed = true
+				s.SetUint32(0, uint32(tag))
+				id := s.Message().AddCap(pc)
+				return s.SetPtr(0, capnp.NewInterface(s.Segment(), id).ToPtr())
+			}
+			w.log(J{"ev": "l-call", "h": a.H, "tag": tag, "cap": name})
+		} else {
+			w.log(J{"ev": "l-call", "h": a.H, "tag": tag})
+		}
 		if a.Kind == "keep" {
 			// the answer is kept for pipelining: send synchronously, release at wind-down
 			ctx, cancel := context.WithTimeout(context.Background(), 3*time.Second)
@@ -1008,7 +1030,10 @@ func (w *world) step(a action, closed *bool) {
 			defer w.wg.Done()
 			ctx, cancel := context.WithTimeout(context.Background(), 3*time.Second)
 			defer cancel()
-			ans, rel := c.SendCall(ctx, capnp.Send{Method: meth, ArgsSize: capnp.ObjectSize{DataSize: 8, PointerCount: 1}, PlaceArgs: placeTag(tag)})
+			ans, rel := c.SendCall(ctx, capnp.Send{Method: meth, ArgsSize: capnp.ObjectSize{DataSize: 8, PointerCount: 1}, PlaceArgs: place})
+			if pc != nil && !placed {
+				pc.Release() // the call failed before the parameters were built: the capability never left the application
+			}
 			s, err := ans.Struct()
 			e := J{"ev": "l-result", "tag": tag}
 			if err != nil {
@@ -1067,6 +1092,18 @@ func (w *world) step(a action, closed *bool) {
 		case <-entered:
 		case <-time.After(30 * time.Millisecond):
 		}
+	case "p-release-param":
+		w.mu.Lock()
+		exp, ok := w.paramExp[a.Tag]
+		w.mu.Unlock()
+		if !ok {
+			return // the call carrying that capability was never sent
+		}
+		msg, rm := w.newMsg()
+		r, _ := rm.NewRelease()
+		r.SetId(uint32(exp))
+		r.SetReferenceCount(uint32(a.K))
+		w.deliver(msg, J{"m": "release", "e": exp, "n": a.K})
 	case "p-pump":
 		w.pump(a)
 	case "a-oncancel":
